@@ -36,6 +36,7 @@ func walkWith(v avfs.VFS, root string, cut int, action error) (visits []string, 
 		}
 	}()
 	i := 0
+	fsx.BeginCall() // a direct call: the lock-site budget of the sequential hook restarts here
 	err := v.WalkDir(root, func(path string, d fs.DirEntry, werr error) error {
 		if strings.Contains(path, fsx.NoncePrefix) {
 			return nil
@@ -264,6 +265,7 @@ func c14Compare(c *rt.Ctx, l *lockstep, name string, v avfs.VFS, fsType string, 
 		if len(snap.Recs) > 0 && r.IntN(2) == 0 {
 			p = snap.Recs[r.IntN(len(snap.Recs))].Path
 		}
+		fsx.BeginCall()
 		fi, serr := v.Stat(p)
 		ex, exErr := avfs.Exists(v, p)
 		de, deErr := avfs.DirExists(v, p)
@@ -284,6 +286,7 @@ func c14Compare(c *rt.Ctx, l *lockstep, name string, v avfs.VFS, fsType string, 
 			emp, empErr := avfs.IsEmpty(v, p)
 			want := false
 			if fi.IsDir() {
+				fsx.BeginCall()
 				es, rerr := v.ReadDir(p)
 				want = rerr == nil && len(es) == 0
 				if rerr != nil && empErr == nil {
@@ -310,7 +313,7 @@ func init() {
 		Shards: shards(12, 16),
 		Meta: func(tier string) rt.Meta {
 			return rt.Meta{Level: "exploration", MinEvals: 5000, MinDistinct: 50,
-				Rule:        "random trees of 5-45 nodes built in lockstep on the emulated file system and on the kernel (verified equal before use; MemFS trees contain symbolic links, incl. links to directories and dangling ones); on each tree: ~40 glob patterns (names of the tree with components replaced by *, ?, classes, negated classes, escapes (also escape-only patterns without any other metacharacter), malformed patterns, doubled and trailing separators, relative patterns) against filepath.Glob; ReadDir of every directory (names, order, types) against os.ReadDir; WalkDir from several roots with the callback returning SkipDir / SkipAll / an error at EVERY visit index (exhaustive per tree) against filepath.WalkDir (visit sequence with types and error arguments, and return value); Exists/DirExists/IsDir/IsEmpty against Stat/ReadDir of the same file system. File systems: MemFS, OrefaFS, RoFS and FailFS over them, BasePathFS over MemFS. Signature = file system | function | pattern or cut-point class | outcome; non-trivial = at least one match / a real cut point.",
+				Rule:        "random trees of 5-45 nodes built in lockstep on the emulated file system and on the kernel (verified equal before use; MemFS trees contain symbolic links, incl. links to directories and dangling ones); one tree in 75 also holds a directory of 600 entries (names whose byte order differs from their numeric and case-insensitive order); on each tree: ~55 glob patterns (names of the tree with components replaced by *, ?, classes, negated classes, escapes (also escape-only patterns without any other metacharacter), malformed patterns, doubled separators at the start, in the middle and around metacharacters, relative patterns) against filepath.Glob; ReadDir of every directory (names, order, types) against os.ReadDir; WalkDir from several roots with the callback returning SkipDir / SkipAll / an error at EVERY visit index (exhaustive per tree) against filepath.WalkDir (visit sequence with types and error arguments, and return value); Exists/DirExists/IsDir/IsEmpty against Stat/ReadDir of the same file system. File systems: MemFS, OrefaFS, RoFS and FailFS over them, BasePathFS over MemFS. Signature = file system | function | pattern or cut-point class | outcome; non-trivial = at least one match / a real cut point.",
 				Assumptions: []string{"unreadable directories for a non-administrator are covered by the random part of C03 (ReadDir) and not re-walked here"}}
 		},
 		Timeout: func(tier string) int {
@@ -334,6 +337,39 @@ func init() {
 				if !c14Tree(c, l, fsType, h) {
 					c.Rep.Count("trees_discarded_c01_disagreement", 1)
 					continue
+				}
+				if (h/c.NShards)%75 == 3 {
+					// a directory of several hundred entries (every seventh a directory; names whose byte order differs from
+					// their numeric and case-insensitive order), on both sides: listings, patterns and walks over it
+					big := []fsx.Op{{K: "Mkdir", P: "/big", Perm: 0o755}}
+					for i := 0; i < 600; i++ {
+						name := fmt.Sprintf("/big/e%03d", i*7%1000)
+						switch {
+						case i%97 == 0:
+							name = fmt.Sprintf("/big/E%d", i)
+						case i%89 == 0:
+							name = fmt.Sprintf("/big/e-%d", i)
+						case i%83 == 0:
+							name = fmt.Sprintf("/big/\u00e9%d", i)
+						}
+						if i%7 == 0 {
+							big = append(big, fsx.Op{K: "Mkdir", P: name, Perm: 0o755})
+						} else {
+							big = append(big, fsx.Op{K: "WriteFile", P: name, Data: "b", Perm: 0o644})
+						}
+					}
+					same := true
+					for _, o := range big {
+						if !l.emu.Exec(o).Same(l.osx.Exec(o)) {
+							same = false
+						}
+					}
+					if !same {
+						c.Rep.Count("trees_discarded_c01_disagreement", 1)
+						continue
+					}
+					c14Ops = append(c14Ops, big...)
+					c.Rep.Count("trees_with_a_large_directory", 1)
 				}
 				c.Rep.Count("trees", 1)
 				base := l.emu.FS
